@@ -27,6 +27,24 @@ Theorem C10_expected_private_read :
 Proof. exact expected10_private_read. Qed.
 Print Assumptions C10_expected_private_read.
 
+(* public_unaffected, partial: every read of the public table in such a history is the canonical one *)
+Theorem C10_public_unaffected_partial :
+  forall h i a n, forallb ev_in10 h = true -> safe_run10 init_state h ->
+    nth_error h i = Some (Read Pub a n) -> nth i (run init_state h) OOk = OSame.
+Proof. exact public_unaffected_partial. Qed.
+Print Assumptions C10_public_unaffected_partial.
+
+(* fresh_private_equals_public, partial: every read of a private table X that exists and has been initialised
+   for the group of the name (its properties list holds the loader's key) is the canonical one *)
+Theorem C10_fresh_private_equals_public_partial :
+  forall h i X a n, forallb ev_in10 h = true -> safe_run10 init_state h ->
+    nth_error h i = Some (Read X a n) -> X <> Pub -> N.eqb (group_of_name n) 0 = false ->
+    exists_tab (exec init_state (firstn i h)) X = true ->
+    inited (proj (group_of_name n) (exec init_state (firstn i h))) X (group_of_name n) = true ->
+    nth i (run init_state h) OOk = OSame.
+Proof. exact fresh_private_equals_public_partial. Qed.
+Print Assumptions C10_fresh_private_equals_public_partial.
+
 (* assignments and in-place mutations: in every reachable state, an assignment on a private table T whose
    class-level attribute is not a pending property, or a mutation of an object T owns, leaves what every other
    table serves (every name of the group, six atoms) and the instance dictionaries of the other private table
